@@ -65,6 +65,7 @@ type State struct {
 	defers    []*deferRec
 	panicking bool
 	acq       *State // heap snapshot taken right after the most recent lock acquisition (for acq(...) in contracts)
+	priv      []privBox // boxes of captured locals that never escape, allocated on every path to here (escape.go)
 }
 
 func (s *State) clone() *State {
@@ -77,6 +78,7 @@ func (s *State) clone() *State {
 	}
 	n.defers = append([]*deferRec{}, s.defers...)
 	n.acq = s.acq
+	n.priv = append([]privBox{}, s.priv...)
 	return n
 }
 
@@ -99,6 +101,7 @@ type Frame struct {
 	rangeIt   map[ssa.Value]*rangeInfo
 	curLoop   *loopInfo
 	depth     int
+	outer     *Frame // inlined activation: the frame of the caller
 	edgeReach map[edgeKey]string
 	frameT    map[string][]modTarget
 	loopHavoc map[*ssa.BasicBlock][]string
@@ -136,7 +139,10 @@ type Exec struct {
 	dual     bool
 	curCall  ssa.Instruction
 	preAlloc string
+	calledNamed map[string]bool // contract keys mentioned in called("...") clauses of this unit
 }
+
+type privBox struct{ heap, ref string }
 
 func newExec(w *World, unit string) *Exec {
 	e := &Exec{w: w, sc: newScript(w, unit), heapSort: map[string]string{}, counts: map[string]int{}, unit: unit, siteCount: map[string]int{}, cellFns: map[string]Val{}}
@@ -178,6 +184,10 @@ func (e *Exec) hget(st *State, name string) string {
 		panic("heap map without sort: " + name)
 	}
 	n := name + "@" + st.base
+	if name == "G_in" {
+		// the bytes a peer sends are a fixed (unknown) sequence: no code changes them
+		n = name + "@0"
+	}
 	if !e.sc.declared[n] {
 		e.sc.declGlobalConst(n, srt)
 		at := ""
@@ -503,6 +513,23 @@ func (e *Exec) merge(states []*State) *State {
 		return live[0].clone()
 	}
 	out := &State{heap: map[string]string{}, cells: map[string]string{}, base: live[0].base, panicking: live[0].panicking}
+	for _, pb := range live[0].priv {
+		everywhere := true
+		for _, s := range live[1:] {
+			found := false
+			for _, q := range s.priv {
+				if q == pb {
+					found = true
+				}
+			}
+			if !found {
+				everywhere = false
+			}
+		}
+		if everywhere {
+			out.priv = append(out.priv, pb)
+		}
+	}
 	var rs []string
 	mixed := false
 	for _, s := range live {
@@ -692,17 +719,48 @@ func funcRecovers(fn *ssa.Function) bool {
 			case *ssa.Function:
 				callee = v
 			}
-			if callee == nil {
-				continue
+			if calleeRecovers(callee) {
+				return true
 			}
-			for _, cb := range callee.Blocks {
-				for _, ci := range cb.Instrs {
-					if c, ok := ci.(*ssa.Call); ok {
-						if bi, ok := c.Call.Value.(*ssa.Builtin); ok && bi.Name() == "recover" {
-							return true
-						}
-					}
+		}
+	}
+	return false
+}
+
+func calleeRecovers(callee *ssa.Function) bool {
+	if callee == nil {
+		return false
+	}
+	for _, cb := range callee.Blocks {
+		for _, ci := range cb.Instrs {
+			if c, ok := ci.(*ssa.Call); ok {
+				if bi, ok := c.Call.Value.(*ssa.Builtin); ok && bi.Name() == "recover" {
+					return true
 				}
+			}
+		}
+	}
+	return false
+}
+
+// protected: a panic raised in this state is caught, i.e. a deferred closure that calls recover()
+// has already been registered on the path (a panic before the defer statement escapes).
+func (e *Exec) protected(fr *Frame, st *State) bool {
+	if !fr.recovers {
+		return false
+	}
+	for _, d := range st.defers {
+		if d.fnv.Fn != nil && calleeRecovers(d.fnv.Fn) {
+			return true
+		}
+		switch v := d.call.Value.(type) {
+		case *ssa.MakeClosure:
+			if f, _ := v.Fn.(*ssa.Function); calleeRecovers(f) {
+				return true
+			}
+		case *ssa.Function:
+			if calleeRecovers(v) {
+				return true
 			}
 		}
 	}
@@ -902,7 +960,7 @@ func (e *Exec) execBlock(fr *Frame, b *ssa.BasicBlock, st *State, edgeStates map
 			fr.retVals = append(fr.retVals, vals)
 			return
 		case *ssa.Panic:
-			if fr.recovers {
+			if e.protected(fr, st) {
 				fr.panics = append(fr.panics, st)
 			} else {
 				e.sc.oblig(st.reach, "false", e.obName("panic"), "safety", "explicit panic is reachable", e.pos(x.Pos()))
